@@ -1,5 +1,5 @@
 """Independent oracles (CPython itself, or transcriptions of CPython validated against it).  stdlib only, 3.7+."""
-from __future__ import annotations
+
 
 import dis
 import struct
